@@ -185,9 +185,13 @@ def configs(tier):
         out.append(dict(name=f"tx-junk-p{p}", mode="tx", phase=p, first="pid", maxlen=2 if q else 3,
                         gaps=[0, 1, 2, 3, 6], junk=[0xFF]))
     # --- receive: sequences of packets (all 4 sampling phases, minimum and long gaps), bounded depth
-    out.append(dict(name="rx-seq", mode="rx", phase=0, pkts="seq", plan="seq", gaps=[2, LONG_GAP], depth=2 if q else 3))
+    out.append(dict(name="rx-seq", mode="rx", phase=0, pkts="seq", plan="seq", gaps=[2, 4, LONG_GAP], depth=2))
+    if not q:
+        out.append(dict(name="rx-seq-deep", mode="rx", phase=0, pkts="seq6", plan="seq", gaps=[2, LONG_GAP], depth=3))
     # --- receive: closure (unbounded sequences) over a two-packet alphabet: every pointer position of the clock-domain-crossing FIFOs
     out.append(dict(name="rx-wrap", mode="rx", phase=0, pkts="wrap", plan="seq", gaps=[2, LONG_GAP], depth=None))
+    # --- receive: every value of a data byte behind a PID (every run of 1s into the EOP, both line levels before the EOP)
+    out.append(dict(name="rx-allbytes", mode="rx", phase=0, pkts="allbytes", plan="seq", gaps=[LONG_GAP], depth=1))
     # --- receive: one bit cell one tick long/short at every position of the packet (SYNC and EOP included)
     for sgn in (+1, -1):
         out.append(dict(name=f"rx-slip{sgn:+d}", mode="rx", phase=0, pkts="slip", plan="slip", sign=sgn, depth=None))
@@ -197,10 +201,10 @@ def configs(tier):
         for sgn in (+1, -1):
             out.append(dict(name=f"rx-long-2slips{sgn:+d}", mode="rx", phase=0, pkts="long", plan="long", sign=sgn, depth=1))
     # --- turn-around
-    out.append(dict(name="mixed", mode="mixed", phase=0, depth=None))
+    out.append(dict(name="mixed", mode="mixed", phase=0, depth=3 if q else 4))
     if not q:
         for p in (1, 2, 3):
-            out.append(dict(name=f"mixed-p{p}", mode="mixed", phase=p, depth=None))
+            out.append(dict(name=f"mixed-p{p}", mode="mixed", phase=p, depth=3))
     return out
 
 
@@ -209,10 +213,10 @@ GOOD, BAD = "good", "bad"
 
 def rx_packets(kind, tier):
     """list of (kind, bytes, skipped stuff bit)"""
-    if kind == "seq":
+    if kind in ("seq", "seq6"):
         ps = [(GOOD, (0xD2,), None), (GOOD, (0xC3, 0xFF, 0xFF), None), (GOOD, (0xE1, 0xFC), None),
               (GOOD, (0x4B, 0x80, 0xFE, 0x7F), None), (BAD, (0xC3, 0xFF, 0x00), 0), (GOOD, (0xC3, 0x00, 0x00), None)]
-        if tier != "quick":
+        if tier != "quick" and kind == "seq":
             ps += [(GOOD, (0xC3, 0xAA, 0x3F, 0xFF, 0x7F), None), (BAD, (0x4B, 0x7F, 0xFF, 0x01), 1),
                    (GOOD, (0xA5, 0xFF, 0xFF, 0xFF, 0xFF, 0xFF, 0xFF), None)]
         return ps
@@ -222,12 +226,15 @@ def rx_packets(kind, tier):
         if tier != "quick":
             ps += [(GOOD, (0xC3, 0x00, 0xFF, 0xAA), None), (GOOD, (0xE1, 0x7F, 0x3F), None)]
         return ps
+    if kind == "allbytes":
+        return [(GOOD, (pid, x), None) for pid in ((0xC3,) if tier == "quick" else (0xC3, 0x4B, 0xE1)) for x in range(256)]
     if kind == "wrap":
-        return [(GOOD, (0xD2,), None), (GOOD, (0xC3, 0xFF, 0xFF), None)]
+        # quick: all bytes equal, so the FIFO memories converge and only the pointer positions / alignments remain
+        return [(GOOD, (0xD2,), None), (GOOD, (0xD2, 0xD2, 0xD2), None) if tier == "quick" else (GOOD, (0xC3, 0xFF, 0xFF), None)]
     if kind == "long":
         return [(GOOD, (0xC3, 0x00, 0xFF, 0xFF, 0xAA, 0x7F, 0xFE, 0x01, 0x80, 0xFF, 0xFC, 0x3F, 0x55, 0xFF, 0xFF, 0x00, 0x12, 0x34), None)]
     if kind == "mixed":
-        return [(GOOD, (0xD2,), None), (GOOD, (0xC3, 0xFF, 0xFC), None), (BAD, (0xC3, 0xFF, 0x00), 0)]
+        return [(GOOD, (0xD2,), None), (GOOD, (0xC3, 0xFF, 0xFC), None)]
     raise KeyError(kind)
 
 
@@ -239,7 +246,7 @@ class PhySpec(Spec):
         super().__init__(cfg, tier)
         self.mode = cfg["mode"]
         self.phase = cfg["phase"]
-        self.time_budget = 60 if tier == "quick" else 840
+        self.time_budget = 3600        # every configuration is bounded structurally (closure or depth), never by the clock
         if cfg.get("depth"): self.max_depth = cfg["depth"]
         m = self.mode
         acts = []
@@ -261,6 +268,9 @@ class PhySpec(Spec):
             seqs = _seqs(first, STUFFY, cfg["maxlen"])
             if cfg["first"] == "pid":
                 seqs = [s for s in seqs if not (s[0] == 0xD2 and len(s) > 1)]
+                # a stuffed 0 exactly on a byte boundary with more bytes to follow (the stall meets the byte hand-over)
+                seqs += [x for x in [(0xC3, 0xFC, 0x00, 0xFF), (0xC3, 0xFC, 0xFF, 0x00), (0x4B, 0xFC, 0xAA, 0x80), (0xC3, 0xFF, 0xFF, 0x00),
+                                     (0xE1, 0xFC, 0xFC, 0xAA, 0x7F)] if x not in seqs]
             for s in seqs:
                 for g in cfg["gaps"]:
                     for j in cfg["junk"]:
@@ -298,9 +308,9 @@ class PhySpec(Spec):
                             acts.append(("rx", 0, off, ((i, sg), (j, sg)), LONG_GAP, "slip"))
         if m == "mixed":
             self.packets = rx_packets("mixed", tier)
-            for s in [(0xD2,), (0xC3, 0xFF, 0xFC), (0x4B, 0x00)]:
-                for g in (2, 3, 8):
-                    acts.append(("tx", s, g, 0xFF))
+            for sq in [(0xD2,), (0xC3, 0xFF, 0xFC)]:
+                for g in (2, 8):
+                    acts.append(("tx", sq, g, 0x00))
             for i in range(len(self.packets)):
                 for off in range(4):
                     for g in (2, LONG_GAP):
@@ -343,8 +353,9 @@ class PhySpec(Spec):
                   "inter-packet gap >= 2 bit times of idle J after the EOP's J bit",
                   f"delivery (rx_active rise, bytes, rx_active fall) must complete within {DL} ticks ({DL // 4} bit times) "
                   "after the end of the EOP; no other latency is demanded",
-                  "rx_error counts as reported when it is high at a 12 MHz clock edge (the UTMI interface is documented as "
-                  "belonging to the usb domain) between SYNC and the fall of rx_active",
+                  "rx_error is only looked at while rx_active is high and only at 12 MHz clock edges (the UTMI interface is "
+                  "documented as belonging to the usb domain); a stuffing violation counts as reported when rx_error is seen "
+                  "that way before the end of the packet's EOP",
                   "the stuffing violation is placed in the second byte or later"]
         if self.mode == "static":
             a += ["with unequal dp/dm pulldown requests either value of the single pulldown pin is admitted",
@@ -357,13 +368,18 @@ class PhySpec(Spec):
             return ["static:opmode1+tx_valid", "static:opmode0-driving"] if self.cfg["what"] == "drive" else \
                    ["static:term_select=1", "static:pulldown-req=1", "static:pulldown-req-mixed"]
         g = []
-        if m in ("tx", "mixed"): g += ["tx:packet-checked", "tx:stuffed", "tx:stuff-bit-before-eop"]
-        if m == "tx": g += ["tx:two-stuff-bits"]
+        if m in ("tx", "mixed"):
+            seqs = [x[1] for x in self._acts if x[0] == "tx"]
+            g += ["tx:packet-checked"]
+            if any(n_stuffed(x) for x in seqs): g += ["tx:stuffed"]
+            if any(n_stuffed(x) >= 2 for x in seqs): g += ["tx:two-stuff-bits"]
+            if any(ends_with_stuff(x) for x in seqs): g += ["tx:stuff-bit-before-eop"]
         if m in ("rx", "mixed"):
-            g += ["rx:good-delivered", "rx:stuffed-delivered"]
+            g += ["rx:good-delivered"]
+            if any(k == GOOD and n_stuffed(bs) for k, bs, _ in self.packets): g += ["rx:stuffed-delivered"]
             if any(k == BAD for k, _, _ in self.packets): g += ["rx:stuff-error-packet-played"]
             if m == "rx" and self.cfg["plan"] in ("slip", "long"): g += ["rx:slip-delivered"]
-            if m == "rx" and self.cfg["plan"] != "long": g += ["rx:delivery-overlaps-next-packet"]
+            if m == "mixed" or self.cfg["plan"] == "slip" or 2 in self.cfg.get("gaps", []): g += ["rx:delivery-overlaps-next-packet"]
         return g
 
     # ------------------------------------------------------------------------------------------------ exploration
@@ -395,6 +411,17 @@ class PhySpec(Spec):
         if a[0] == "s": return self._static(cur, env, a)
         if a[0] == "tx": return self._tx(cur, env, a)
         return self._rx(cur, env, a)
+
+    _vecs = None
+    _masks = None
+
+    def _clock_masks(self, model):
+        # clock-enable mask per step index, same rule as Design.clocks (the amaranth.sim replay re-checks every mask)
+        if self._masks is None:
+            self._masks = [sum(1 << bit for bit, dom in enumerate(model.clk_domains) if t % model.clocks[dom][0] == model.clocks[dom][1])
+                           for t in range(4)]
+            self._txvecs = {}
+        return self._masks
 
     # ------------------------------------------------------------------------------------------------ static
     def _static(self, cur, old, a):
@@ -433,9 +460,16 @@ class PhySpec(Spec):
         seen = False
         tail = None                   # remaining ticks once the bus has been released
         ract = env[0] if env else 0
+        model = cur.model
+        masks = self._clock_masks(model)
+        vc = self._txvecs
+        step = cur.step_vec
         while True:
             if t == lead and idx == 0 and not accepted: valid = 1
-            o = cur.step(tx_valid=valid, tx_data=(data[idx] if valid else junk))
+            key = (valid, data[idx] if valid else junk)
+            v = vc.get(key)
+            if v is None: v = vc[key] = model.vec(tx_valid=key[0], tx_data=key[1])
+            o = step(v, masks[t & 3])
             if o.dp_oe != o.dn_oe:
                 raise Violation("tx-oe-differs-between-pins", dict(tick=t, dp_oe=o.dp_oe, dn_oe=o.dn_oe))
             drv = o.dp_oe
@@ -503,12 +537,9 @@ class PhySpec(Spec):
         kind, data, skip = self.packets[pi]
         p = self.phase
         model = cur.model
-        if getattr(self, "_vecs", None) is None:
+        if self._vecs is None:
             self._vecs = {lv: model.vec(dp_i=lv[0], dn_i=lv[1]) for lv in LV.values()}
-            # clock enable masks per step index (same rule as Design.clocks; the amaranth.sim replay re-checks them)
-            self._masks = [sum(1 << bit for bit, dom in enumerate(model.clk_domains) if t % model.clocks[dom][0] == model.clocks[dom][1])
-                           for t in range(4)]
-        vecs, masks = self._vecs, self._masks
+        vecs, masks = self._vecs, self._clock_masks(model)
         syms = encode(data, skip)
         sl = dict(slips)
         wave = []
@@ -526,12 +557,16 @@ class PhySpec(Spec):
             if t == end: q[-1][5] = 0
             o = step(wave[t - off] if off <= t < end else idle, masks[t & 3])
             edge = ((t & 3) == p)
-            if o.rx_error and q:
-                e = q[-1]             # rx_error is not delayed by the clock-domain crossing: it belongs to the newest packet on the wire
-                if e[0] == GOOD:
-                    raise Violation("rx-error-on-good-packet", dict(packet=_hx(e[1]), tick=t, at_12mhz_edge=edge, action=self.label(a)))
-                e[4] = 1
-                if edge: e[3] = 1
+            if o.rx_error:
+                # rx_error also pulses on an idle bus (every 7th idle bit: the class calls that normal); UTMI gives it a
+                # meaning only while rx_active is high, and the 12 MHz side only sees it at its own clock edges.
+                if o.rx_active and edge:
+                    if q and q[0][2] >= 0 and q[0][0] == GOOD:
+                        raise Violation("rx-error-on-good-packet", dict(packet=_hx(q[0][1]), tick=t, ticks_after_eop=q[0][5], action=self.label(a)))
+                    if q and q[-1][0] == BAD and q[-1][5] < 0: q[-1][3] = 1      # reported while the packet is still on the wire
+                elif o.rx_active:
+                    self.cover["rx:error-pulse-between-12mhz-edges"] += 1
+                if q and q[-1][0] == BAD and q[-1][5] < 0: q[-1][4] = 1
             if edge:
                 act = o.rx_active
                 if act and not prev:
